@@ -594,11 +594,14 @@ func (ex *Exec) stat(id string) *oblStat {
 	return s
 }
 
-func (ex *Exec) assertObl(id string, c *Term, pos string) {
+func (ex *Exec) assertObl(id string, c *Term, pos string, independent bool) {
 	if ex.replaying() {
 		// already checked by the parent path before the fork point; keep the same path condition
-		if c.IsConst() && !c.B {
+		if independent {
 			return
+		}
+		if c.IsConst() && !c.B {
+			panic(&PathEnd{"assertion " + id + " is false on this path"})
 		}
 		ex.assume(c)
 		return
@@ -639,12 +642,13 @@ func (ex *Exec) assertObl(id string, c *Term, pos string) {
 		s.Pop()
 	}
 	// continue under the assumption that the assertion holds
-	if r != Unsat {
+	if r != Unsat && !independent {
 		if c.IsConst() && !c.B {
-			return // fails on the whole path: recorded; keep executing so that later obligations are still decided
+			// fails on the whole path: later assertions of this path would only repeat the failure
+			panic(&PathEnd{"assertion " + id + " is false on this path"})
 		}
 		if s.CheckWith(c) == Unsat {
-			return // fails for every input of this path: nothing to assume, keep going
+			panic(&PathEnd{"assertion " + id + " fails on the whole path"})
 		}
 		ex.assume(c)
 	}
